@@ -18,7 +18,16 @@ Bad ==
   /\ \E c \in BadCalls, v \in {"NEG", "OVER"} :
        Step([op |-> "bad", call |-> c.call, arg |-> c.arg, val |-> v])
 
-PNext == (Next \/ Bad) /\ hist' = Append(hist, last')
+\* set_time is a plain assignment in the core, and C18 quantifies over every call sequence: the Python book must
+\* follow it to a time BEFORE the current one as well (stamps of later placements, fills and cancellations)
+SetTimeBack ==
+  /\ "settime_back" \in Ops /\ n < MaxOps
+  /\ \E d \in {1, 2} :
+       /\ b.now >= d
+       /\ LET lbl == [op |-> "settime", t |-> b.now - d] IN
+          b' = ApplyLbl(b, lbl) /\ last' = lbl /\ n' = n + 1
+
+PNext == (Next \/ Bad \/ SetTimeBack) /\ hist' = Append(hist, last')
 
 EmitPy ==
   Constr => PrintT(<<"GEN", ToJson([path |-> hist, exp |-> Proj(b), py |-> PyBook(b),
